@@ -104,7 +104,8 @@ Record cursor : Type := mkcur {
   crich : option (list Z);       (* richSource pixels (server format), cw*ch; NULL = None *)
   calpha : option (list Z);      (* alphaSource bytes, cw*ch *)
   cpremult : bool;
-  cfore : Z * Z * Z; cback : Z * Z * Z }.   (* 16-bit foreRed.. / backRed.. *)
+  cfore : Z * Z * Z; cback : Z * Z * Z;     (* 16-bit foreRed.. / backRed.. *)
+  cderived : bool }.             (* cleanupRichSource: richSource was made by rfbMakeRichCursorFromXCursor *)
 
 Definition w8 (c : cursor) : Z := (cw c + 7) / 8.
 Definition two32 : Z := 4294967296.
@@ -134,7 +135,7 @@ Definition make_rich_from_x (fmt : pixfmt) (c : cursor) : option (list Z) :=
 
 Definition set_rich (c : cursor) (r : list Z) : cursor :=
   mkcur (cw c) (ch c) (cxhot c) (cyhot c) (csource c) (cmask c) (Some r) (calpha c) (cpremult c)
-        (cfore c) (cback c).
+        (cfore c) (cback c) true.
 
 (* `if(!c->richSource) rfbMakeRichCursorFromXCursor(s,c);` *)
 Definition ensure_rich (fmt : pixfmt) (c : cursor) : option (cursor * list Z) :=
